@@ -80,6 +80,7 @@ Qed.
 Lemma mi_start_stage s id i k : MARKS id (handle_start_stage s id i k).
 Proof.
   unfold MARKS, handle_start_stage. destruct (get_stage s i) as [st|]; [|mi].
+  destruct (parent_not_started s st); [unfold ok; cbn [h_commits]; mi|].
   match goal with |- context [match rr_phase ?r with _ => _ end] => destruct (rr_phase r) end.
   - unfold start_if_ready.
     match goal with |- context [if ?c then ok [] else _] => destruct c end; [mi|].
